@@ -99,11 +99,12 @@ func c10() *core.Check {
 		for i := range sqlCaseSites {
 			us = append(us, core.Unit{Gen: "sites", Lo: uint64(i), Hi: uint64(i + 1), Arg: tier})
 		}
+		us = append(us, core.Unit{Gen: "kwframes", Lo: 0, Hi: 1, Arg: tier})
 		return append(us, planMix(sqlDomain, mixes)...)
 	}
 	return &core.Check{
 		ID: "C10",
-		Rule: "case-site catalogue (one or more seeds per case-folding site: keyword classes, phrase merge, unary NOT, IN/LIKE/USER() rules, INTO, ;IF, hex/binary/exponent/suffix letters, string prefixes, COLLATE, :: types) with ALL 2^k case masks for k <= 12 non-exempt letters (4096 random masks beyond); every other SQL workload input with the masks all-upper, all-lower, alternating x2 and 4 random ones. " +
+		Rule: "case-site catalogue (one or more seeds per case-folding site: keyword classes, phrase merge, unary NOT, IN/LIKE/USER() rules, INTO, ;IF, hex/binary/exponent/suffix letters, string prefixes, COLLATE, :: types) with ALL 2^k case masks for k <= 12 non-exempt letters (4096 random masks beyond); every key of the live keyword table in 7-12 sentence frames (word, operator, phrase merge, before '.' and back-tick, after ';', as function) and every other SQL workload input with the masks all-upper, all-lower, alternating x2 and 4 random ones. " +
 			"Exempt positions (over-approximated): letter after a backslash, letter runs after '$', occurrences of sp_password, q-quote letter delimiters and letters directly before a quote in such inputs. Oracle: IsSQLi(s') = IsSQLi(s), verdict and fingerprint. Non-trivial = compared pairs (s,s') with s' != s whose base fingerprint is non-empty; distinct by s'.",
 		Plan: plan,
 		Gen: func(w *core.Worker, u core.Unit, emit func(core.Case)) {
@@ -130,7 +131,7 @@ func c10() *core.Check {
 				}
 				return
 			}
-			sqlGen(w, u, func(c core.Case) {
+			each := func(c core.Case) {
 				if len(c.In) > 4096 {
 					return
 				}
@@ -138,7 +139,14 @@ func c10() *core.Check {
 				for _, m := range []uint64{0, ^uint64(0), 0xAAAAAAAAAAAAAAAA, 0x5555555555555555, h, h * 0x9e3779b97f4a7c15, ^h, h >> 7} {
 					emit(core.Case{In: c.In, Kind: "mask", A: int64(m)})
 				}
-			})
+			}
+			if u.Gen == "kwframes" {
+				// every key of the live table (all letters a-z occur) in the
+				// sentence frames that route it through each look-up site
+				genKeywordContexts(u.Arg == "thorough", each)
+				return
+			}
+			sqlGen(w, u, each)
 		},
 		One: func(w *core.Worker, c core.Case) {
 			s := c.In
@@ -209,7 +217,7 @@ func c11() *core.Check {
 	return &core.Check{
 		ID: "C11",
 		Rule: "(a) case: HTML case-site catalogue (every black tag, event, attribute, scheme incl. entity-encoded letters and hex digits, doctype, [if, import, entity, xml, &#x) with ALL 2^k masks for k <= 12 letters (4096 random beyond), and every other HTML workload input (incl. the XSS grammar) with 8 masks; inputs holding a case-variant of [CDATA[ are skipped; oracle IsXSS(s') = IsXSS(s). " +
-			"(b) NUL: for every input, context and every tag-name-open / attribute-name token of that context's token stream, a NUL is inserted at every position strictly inside the token (plus double insertions); oracle: that context's verdict is unchanged. Non-trivial = compared pairs whose base verdict is true, or NUL insertions into names of >= 2 bytes; distinct by transformed input.",
+			"(b) NUL: for every input, context and every tag-name-open / attribute-name token of that context's token stream, a NUL is inserted at every position strictly inside the token (plus double insertions, and runs of 8/64/300 NULs after the first and before the last byte); oracle: that context's verdict is unchanged. Non-trivial = compared pairs whose base verdict is true, or NUL insertions into names of >= 2 bytes; distinct by transformed input.",
 		Plan: plan,
 		Gen: func(w *core.Worker, u core.Unit, emit func(core.Case)) {
 			if u.Gen == "sites" {
@@ -290,10 +298,25 @@ func c11() *core.Check {
 							return
 						}
 						w.Count("nul_insertions", 1)
+						w.Eval(1)
 						if base {
 							w.Nontrivial(fmt.Sprintf("%d|%s", ci, s2))
 						} else if t.Len >= 3 {
 							w.Nontrivial(fmt.Sprintf("%d|%s", ci, s2))
+						}
+						// a long NUL run at one interior position per token (a length
+						// limit applied before NUL stripping would show here)
+						if p == t.Off+1 || p == t.Off+t.Len-1 {
+							for _, run := range []int{8, 64, 300} {
+								s4 := s[:p] + strings.Repeat("\x00", run) + s[p:]
+								w.Eval(1)
+								if got := li.VerifXSSCtx(s4, ctx); got != base {
+									w.SetCur(core.Case{In: s, Kind: "nul", A: int64(p), B: int64(ci)})
+									w.Violate("nul-sensitive", fmt.Sprintf("context %s: verdict(%q) = %v, with %d NULs inserted at offset %d inside the %s token %q it is %v", h5CtxNames[ci], trunc(s, 200), base, run, p, h5TypeName(t.Type), s[t.Off:t.Off+t.Len], got))
+									w.SetCur(c)
+									return
+								}
+							}
 						}
 						// double insertion on a sample
 						if (p+t.Len)%3 == 0 && p+1 < t.Off+t.Len {
